@@ -38,6 +38,21 @@ func opRefSendMalformed(w *World, s *Step) (string, string) {
 			return "referr", "referr"
 		}
 		body = append(iv, ct...)
+	case "badinner", "innerlen":
+		// decrypts and un-pads fine, but the inner chain does not parse: an unknown CRITICAL payload,
+		// or an inner payload length pointing past the plaintext
+		inner := []byte{0, 0x80, 0, 8, 1, 2, 3, 4}
+		if s.Src == "innerlen" {
+			inner = []byte{0, 0, 0, 200, 9, 9, 9, 9}
+		}
+		padn := (16 - (len(inner)+1)%16) % 16
+		pt := append(append(inner, r.Bytes(padn)...), byte(padn))
+		iv := r.Bytes(16)
+		ct, err := ref.CBCEncrypt(enc, iv, pt)
+		if err != nil {
+			return "referr", "referr"
+		}
+		body = append(iv, ct...)
 	case "ivonly":
 		body = r.Bytes(16)
 	case "misaligned":
@@ -50,7 +65,13 @@ func opRefSendMalformed(w *World, s *Step) (string, string) {
 	skLen := 4 + len(body) + ig.ICVLen
 	h := ref.Header{SPIi: r.U64(), SPIr: r.U64(), Major: 2, Exchange: 37, Flags: 8, MessageID: r.U32()}
 	d := h.Bytes(46, 28+skLen)
-	d = append(d, Pick[uint8](r, 0, 40, 41), 0, byte(skLen>>8), byte(skLen))
+	first := Pick[uint8](r, 0, 40, 41)
+	if s.Src == "badinner" {
+		first = Pick[uint8](r, 200, 49, 1) // unknown type, critical flag set inside
+	} else if s.Src == "innerlen" {
+		first = 40
+	}
+	d = append(d, first, 0, byte(skLen>>8), byte(skLen))
 	d = append(d, body...)
 	d = append(d, ig.ICV(ik, d)...)
 	w.dgrams[s.Dgram] = &Dgram{SA: s.SA, From: s.From, Bytes: d, Spec: &MsgSpec{}, Authentic: true}
@@ -399,7 +420,7 @@ func genC17(r *Rng, idx int, tier string) *Scenario {
 				id := next
 				next++
 				from := Pick(r, "I", "R")
-				sc.Steps = append(sc.Steps, Step{Op: "ref_send_malformed", SA: 0, Dgram: id, From: from, Src: Pick(r, "badpad", "badpad", "ivonly", "misaligned", "shortbody"), SpiI: r.U64()})
+				sc.Steps = append(sc.Steps, Step{Op: "ref_send_malformed", SA: 0, Dgram: id, From: from, Src: Pick(r, "badpad", "badpad", "ivonly", "misaligned", "shortbody", "badinner", "innerlen"), SpiI: r.U64()})
 				st = Step{Op: "deliver", Dgram: id, Rx: genRx(r), Obj: Pick(r, "long", "long", "peer")}
 			case 0, 1:
 				st.Fault = &Fault{Kind: "bitflip", Byte: r.Intn(140), Bit: r.Intn(8)}
